@@ -155,7 +155,7 @@ def run(ctx):
         ev = evaluate(ss)
         from ..core.sym import inline
 
-        oks = [strip_sites(ev.exit_state[b].get(0)) for b in R.ok_blocks(ss)]
+        oks = [strip_sites(R.ok_value(ev.fn, ev, b)) for b in R.ok_blocks(ss)]
         # or: seal_scalar hands (pk, H*m, blinder, rng) to the sibling seal_point
         oks.append(strip_sites(inline(P, ev.ret, 1, only=lambda g: g.key == "BlsElGamal::seal_point")))
         ok = False
